@@ -16,29 +16,29 @@ open Rpylib Rpylib.Sde
    component access.  The driver therefore materialises the state after every step (`vecOf (toList m ·)`) and runs M's
    own `eulerStep`, `driftInc`, `diffInc`, `jumpInc`, `eulerStepPair` one step at a time — `euler (i+1) = eulerStep
    (euler i) i` and `driftPath (i+1) = driftPath i + driftInc (euler i) i` hold by definition. -/
-def mat (m : Nat) (v : Vec) : Vec := vecOf (toList m v)
 def addL (a b : List Rat) : List Rat := List.zipWith (· + ·) a b
 
-/-- rows X_0..X_n and the cumulative drift / diffusion / jump rows -/
-def runEuler (S : Sde) (P : DriverPath) (m : Nat) : Nat → Nat → Vec → List Rat → List Rat → List Rat →
+/-- rows X_0..X_n and the cumulative drift / diffusion / jump rows; the loop state is plain data (`List Rat`) -/
+def runEuler (S : Sde) (P : DriverPath) (m : Nat) : Nat → Nat → List Rat → List Rat → List Rat → List Rat →
     List (List Rat) × List (List Rat) × List (List Rat) × List (List Rat)
-  | 0, _, z, dr, di, ju => ([toList m z], [dr], [di], [ju])
+  | 0, _, z, dr, di, ju => ([z], [dr], [di], [ju])
   | fuel + 1, i, z, dr, di, ju =>
-    let z' := mat m (eulerStep S P z i)
-    let dr' := addL dr (toList m (driftInc S P z i))
-    let di' := addL di (toList m (diffInc S P z i))
-    let ju' := addL ju (toList m (jumpInc S P z i))
+    let zv := vecOf z
+    let z' := toList m (eulerStep S P zv i)
+    let dr' := addL dr (toList m (driftInc S P zv i))
+    let di' := addL di (toList m (diffInc S P zv i))
+    let ju' := addL ju (toList m (jumpInc S P zv i))
     let (a, b, c, d) := runEuler S P m fuel (i + 1) z' dr' di' ju'
-    (toList m z :: a, dr :: b, di :: c, ju :: d)
+    (z :: a, dr :: b, di :: c, ju :: d)
 
-def runPair (S : SdePair) (P : DriverPair) (m : Nat) : Nat → Nat → (Nat → Vec) → List (List Rat) × List (List Rat)
-  | 0, _, z => ([toList m (z 0)], [toList m (z 1)])
-  | fuel + 1, i, z =>
-    let w := eulerStepPair S P z i
-    let w0 := mat m (w 0)
-    let w1 := mat m (w 1)
-    let (a, b) := runPair S P m fuel (i + 1) (fun c => if c = 0 then w0 else w1)
-    (toList m (z 0) :: a, toList m (z 1) :: b)
+def runPair (S : SdePair) (P : DriverPair) (m : Nat) : Nat → Nat → List Rat → List Rat → List (List Rat) × List (List Rat)
+  | 0, _, z0, z1 => ([z0], [z1])
+  | fuel + 1, i, z0, z1 =>
+    let w := eulerStepPair S P (fun c => if c = 0 then vecOf z0 else vecOf z1) i
+    let w0 := toList m (w 0)
+    let w1 := toList m (w 1)
+    let (a, b) := runPair S P m fuel (i + 1) w0 w1
+    (z0 :: a, z1 :: b)
 
 def step (tk : List String) : String :=
   match tk with
@@ -52,7 +52,7 @@ def step (tk : List String) : String :=
       let n := ts.length - 1
       let x := vecOf x0
       let z := List.replicate m (0 : Rat)
-      let (a, b, c, d) := runEuler S P m n 0 (mat m x) z z z
+      let (a, b, c, d) := runEuler S P m n 0 (toList m x) z z z
       showListList showRat a ++ " " ++ showListList showRat b ++ " " ++ showListList showRat c ++ " " ++
         showListList showRat d
     | _, _, _, _, _, _, _, _, _, _, _, _ => "bad-op"
@@ -69,8 +69,8 @@ def step (tk : List String) : String :=
           fun c i => if c = 0 then vecOf (L0.getD i []) else vecOf (L1.getD i [])⟩
         let n := ts.length - 1
         let x := vecOf x0
-        let x := mat m x
-        let (a, b) := runPair S P m n 0 (fun _ => x)
+        let xl := toList m x
+        let (a, b) := runPair S P m n 0 xl xl
         showListList showRat a ++ " " ++ showListList showRat b
       | _, _, _, _ => "bad-op"
     | _, _, _, _, _, _, _, _, _, _, _ => "bad-op"
